@@ -15,7 +15,7 @@ CHECKS = {
  "C05": ("other", AI + " with exact rational forms for floating values; shape lemma on value-numbered float expressions", "NaN/range clause for float and double, fixed->double exact, fixed->float correctly rounded by shape, fixed->double->fixed identity on |x| < 2^31-1, and the half-ulp / ties-away rounding of floating->fixed by shape: every converting path is fptosi(v*65536 +- 0.5) with the offset matching the sign of the path's input range. The statement's two clauses contradict each other on 2^31-1 <= |x| < 2^31 (identity vs NaN); the library follows the NaN clause", "5 (C05), 6"),
  "C06": ("proof", AI + "; predicate refinement both ways", "six comparisons, sentinels, isnan, unary minus, abs over [-NaN,NaN]", "5 (C06)"),
  "C07": ("proof", AI + "; trap-site reachability with alarm-driven value partitioning", "every sanitizer trap site and table load reachable from any public entry point is unreachable for all inputs of the precondition box, per configuration (c++17, c++17 + abacus, c++20, and c++20 with the constant-evaluation arms compiled as ordinary code)", "3, 5 (C07), 11.11"),
- "C08": ("other", "static analysis: clang-query AST rules (constexpr closure, false const/pure attributes) over the instantiated driver TU; " + AI + "; summary equivalence of the -std=c++17 and -std=c++20 builds", "constexpr closure in K17A/K20; c++17 vs c++20 summary equivalence of every wrapper; fmuladd contraction safety; no UB (optimisation-level independence); the two sqrt algorithms differ by 0 or 1 ulp (abacus == floor(sqrt(65536 raw)) by inductive loop invariant, std within 0.5 + 2^-19 by shape lemma). Constant evaluation vs run time: the is_constant_evaluated() arms compiled as ordinary code (configuration K20C) equal the run-time arms by summary equivalence (262 wrappers with identical IR, 6 compared). Code generators trusted. 10 recorded findings (lookup-table family not constexpr)", "5 (C08), 6, 7"),
+ "C08": ("other", "static analysis: clang-query AST rules (constexpr closure, false const/pure attributes) over the instantiated driver TU; " + AI + "; summary equivalence of the -std=c++17 and -std=c++20 builds", "constexpr closure in K17A/K20; c++17 vs c++20 summary equivalence of every wrapper; fmuladd contraction safety; no UB (optimisation-level independence); the two sqrt algorithms differ by 0 or 1 ulp (abacus == floor(sqrt(65536 raw)) by inductive loop invariant, std within 0.5 + 2^-19 by shape lemma). Constant evaluation vs run time: the is_constant_evaluated() arms compiled as ordinary code (configuration K20C) equal the run-time arms by summary equivalence (262 wrappers with identical IR, 6 compared); -std=c++2b against -std=c++20 likewise. Code generators trusted. 10 recorded findings (lookup-table family not constexpr)", "5 (C08), 6, 7"),
  "C09": ("proof", AI + "; range-reduction structure (congruence, window, abstract re-execution); cell-wise interval automatic differentiation of the idealised result expression with a rounding budget, against a big-integer interval oracle", "exact periodicity on |x| < 2^46; accuracy 4 ulp + r^9/9! and |result| <= 1 for every |x| <= 2 pi (9652 cells); cos through sin(x + pi/2): every clause decided", "11.1, 11.7"),
  "C10": ("proof", AI + "; summary equivalence for oddness; range-reduction structure for the period; pole paths; cell-wise interval automatic differentiation of the idealised result expression with a rounding budget against an interval oracle", "tan odd, period phi, NaN exactly at the pole, and |tan_lib - tan| <= 2.5 ulp (1+tan^2) on |x| <= pi (4321 cells + 192 near-pole arguments): every clause decided", "11.1, 11.7"),
  "C11": ("proof", AI + "; summary equivalence (oddness); per-quadrant boxes with value partitioning of the quotient; cell-wise interval automatic differentiation of the idealised result expression against an interval oracle; abstract re-execution of atan / its series on the quotient symbol; linear bound of the quotient", "atan odd; |atan_lib - atan| <= 5e-5 on all of [0,2^63) (17469 cells); atan2 axis values, (0,0) NaN, quadrant signs, and atan2 == atan(q) + quadrant offset hence within 8e-5; |atan| <= fixpidiv2 by series-of-quotient composition; x <= y => atan x <= atan y + 2 from exact cell-end values, rounding budgets and exact segment-end results: every clause decided", "5 (C11), 6"),
